@@ -5,6 +5,10 @@ import AfkakProofs.Producer.RelStep
 import AfkakProofs.Producer.Geo
 import AfkakProofs.Producer.Order
 import AfkakProofs.Producer.Compose
+import AfkakProofs.Producer.OneFlight
+import AfkakProofs.Producer.ReportedTrace
+import AfkakProofs.Producer.AfterStop
+import AfkakProofs.Producer.AuditTraces
 /-!
 # C09 — Per-partition send order is preserved and retries are disciplined
 Property theorems only.  Model: `Afkak/Producer.lean`; monitors: `Afkak/Monitor/C09.lean`.
@@ -25,18 +29,53 @@ theorem C09_factor_gt_one : 1 < producerRetryFactor ∧ 0 < producerInitRetryInt
 theorem C09_order (cfg : Cfg) (evs : List Ev) : order cfg (traceOf cfg evs) = true :=
   order_model cfg evs
 
-/-- One batch in flight — trace level, for EVERY event list: a produce request that is not a retry
-    carries only sends that were never in a request before, and (given the client accounted for every
-    payload of every request so far, C07) it is made only when every send of every earlier request has
-    fired, i.e. all earlier batches are resolved; a retry carries only sends of the request it retries. -/
+/-- One batch in flight — trace level, for EVERY event list: a produce request that is not a retry is made ONLY
+    WHEN NO PRODUCE REQUEST IS UNANSWERED - none was made yet, or the client has answered the last one (in this
+    very step at the latest): a second first-attempt request while the first is unanswered is rejected by this
+    monitor, whatever the client's accounting; it carries only sends that were never in a request before, and
+    (given the client accounted for every payload of every request so far, C07) it is made only when every send
+    of every earlier request has fired, i.e. all earlier batches are resolved; a retry carries only sends of the
+    request it retries (unconditionally: only what failed stays listed, F17/F30). -/
 theorem C09_one_batch (cfg : Cfg) (evs : List Ev) : oneBatch cfg (traceOf cfg evs) = true :=
   oneBatch_model cfg evs
 
+/-- One batch in flight — step level, for ANY state and any event: if a step makes a produce request, then before
+    the step no batch was in flight (`idle`); or the batch in flight was waiting for partition look-ups (no request
+    of it was out) and the event is a look-up answer; or it was waiting for the client's answer to request `r`
+    and the event IS that answer, a valid one; or it was waiting for retry timer `tid` and the event is that
+    timer.  In particular: while a request is unanswered NOTHING but its (valid) answer makes another. -/
+theorem C09_one_request_in_flight_step (cfg : Cfg) (st : St) (e : Ev) (rid : Rid) (ps : List Payload)
+    (h : Ob.produce rid ps ∈ (step cfg st e).2) :
+    st.phase = .idle ∨
+    (∃ ls, st.phase = .lookups ls ∧ ((∃ tid, e = .timer tid) ∨ ∃ r res, e = .metaDone r res)) ∨
+    (∃ r b res, st.phase = .sending r b ∧ e = .produceDone r res ∧ validResult b res = true) ∨
+    (∃ tid b tps, st.phase = .retryWait tid b tps ∧ e = .timer tid) :=
+  produce_only_when_free cfg st e rid ps h
+
+/-- Acknowledged ones are reported at once — trace level, for EVERY event list: in the step that takes the client's
+    answer to the request in flight, every still-outstanding send riding on a payload the answer acknowledges
+    (error 0) fires `ok` with that very response - whatever happens to the rest of the batch (retry, failure);
+    when the answer ends the batch for good (no attempt left, not stopping) every outstanding send on a payload it
+    reports failed fails with THAT payload's error; and a failure that is no Kafka error fails every outstanding
+    send of the request with it at once. -/
+theorem C09_reported (cfg : Cfg) (evs : List Ev) : reported cfg (traceOf cfg evs) = true :=
+  reported_model cfg evs
+
+/-- … state level: in a reachable state waiting on request `rid`, a valid answer `r`, a response of it with error 0,
+    a send `s` riding on that response's payload and still outstanding: `fire s (ok resp)` is among the step's
+    observations. -/
+theorem C09_acked_reported_step (cfg : Cfg) (st : St) (h : Reach cfg st) (rid : Rid) (b : Batch) (r : ProdRes)
+    (hp : st.phase = .sending rid b) (hv : validResult b r = true) (resp : Resp) (hr : resp ∈ respsOf r)
+    (he : resp.error = 0) (s : Sid) (hs : s ∈ b.sidsOf resp.tp) (ho : s ∈ st.outstanding) :
+    Ob.fire s (.ok resp) ∈ (step cfg st (.produceDone rid r)).2 :=
+  acked_reported_step cfg st h rid b r hp hv resp hr he s hs ho
+
 /-- Retry only what failed — trace level, for EVERY event list: a retry (the produce request sent by
     the timer that was set while the previous attempt's result was handled) carries exactly the payloads
-    that result reported failed — its failed payloads, then its error-coded responses, or for a total
-    failure the still unacknowledged payloads of the batch — each unchanged (the same sends in the same
-    order), and never a payload acknowledged earlier in the batch. -/
+    that result reported failed — its failed payloads, then its error-coded responses, in that order; for a total
+    failure (nothing was sent) the payloads of THE REQUEST THAT FAILED, all of them and nothing else (in
+    particular not a payload that an earlier attempt handed to its connection, F30) — each unchanged (the same
+    sends in the same order), and never a payload acknowledged earlier in the batch. -/
 theorem C09_retry_only_failed (cfg : Cfg) (evs : List Ev) : retryOnlyFailed cfg (traceOf cfg evs) = true :=
   retryOnlyFailed_model cfg evs
 
@@ -56,12 +95,15 @@ theorem C09_geometric (cfg : Cfg) (evs : List Ev) : geometric cfg 0 (traceOf cfg
 /-- Retry only what failed (handler level): whatever result `r` the client gives for the attempt in
     flight (valid or not, any state `st`), `_handle_send_response` either resolves the batch or
     schedules ONE retry whose payload list is exactly what `r` reports failed - the failed payloads,
-    then the error-coded responses; for a total failure the payloads not yet acknowledged - and the
-    acknowledged payloads of `r` are popped from the batch first, so they can never be retried. -/
+    then the error-coded responses; for a total failure the payloads of the attempt (all that is still listed)
+    - and ONLY what is retried stays listed in the batch (`keep`; F17, F30): a payload `r` acknowledges, and a
+    payload that was handed to its connection without acknowledgement, can never be sent again, not even after a
+    later total failure.  (A result naming each payload at most once - the client contract C07 - never lists an
+    acknowledged payload as failed.) -/
 theorem C09_retry_only_failed_handler (cfg : Cfg) (st : St) (b : Batch) (r : ProdRes) (tid : Tid) (b' : Batch)
     (tps : List TP) (h : (handleSendResponse cfg st b r).1.phase = .retryWait tid b' tps) (hp : ∀ t b0 l, st.phase ≠ .retryWait t b0 l) :
-    b' = b.popAcked (respsOf r) ∧ tps = failedTps b'.live r ∧ tps ≠ [] ∧
-    (∀ x ∈ respsOf r, x.error = 0 → x.tp ∉ b'.live) := by
+    b' = b.keep tps ∧ tps = failedTps b.live r ∧ tps ≠ [] ∧ (∀ tp ∈ b'.live, tp ∈ tps) ∧
+    (r.tps.Nodup → ∀ x ∈ respsOf r, x.error = 0 → x.tp ∉ tps ∧ x.tp ∉ b'.live) := by
   obtain ⟨_, h2⟩ := handleSendResponse_spec cfg st b r
   generalize (handleSendResponse cfg st b r).2.2 = res at h2
   cases h2 with
@@ -69,12 +111,14 @@ theorem C09_retry_only_failed_handler (cfg : Cfg) (st : St) (b : Batch) (r : Pro
   | retry a1 a2 =>
     rw [a1] at h; injection h with _ e2 e3
     subst e2; subst e3
-    refine ⟨rfl, rfl, a2, ?_⟩
-    intro x hx he hc
-    simp only [Batch.popAcked, List.mem_filter, Bool.not_eq_true', Bool.eq_false_iff] at hc
-    apply hc.2
-    rw [List.any_eq_true]
-    exact ⟨x, List.mem_filter.mpr ⟨hx, by simpa using he⟩, by simp⟩
+    have hk : ∀ tp ∈ (b.keep (failedTps b.live r)).live, tp ∈ failedTps b.live r := by
+      intro tp htp
+      simp only [Batch.keep, List.mem_filter, decide_eq_true_eq] at htp
+      exact htp.2
+    refine ⟨rfl, rfl, a2, hk, ?_⟩
+    intro hn x hx he
+    have := acked_not_failed b.live r hn x hx he
+    exact ⟨this, fun hc => this (hk _ hc)⟩
 
 /-- Attempt bound (handler level): a retry is scheduled only while `_req_attempts < max_req_attempts`
     and never once `stop()` has begun; the delay handed to the timer is the current `_retry_interval`,
@@ -152,6 +196,9 @@ C09_retry_only_failed_handler
 C09_retry_guard_handler
 C09_order
 C09_one_batch
+C09_one_request_in_flight_step
+C09_reported
+C09_acked_reported_step
 C09_client_returns_every_response
 C09_composed_retry_only_failed
 -/
